@@ -153,12 +153,13 @@ Definition dec_keys (sg : fsig) : list key :=
                      | _ => []
                      end) (sig_rleaves sg).
 
+(* a key already decorated in the scope, or returned twice by the decorator itself *)
 Definition err_dec_dup : err := mkErr [] RInvalidLeaf.
 
 Definition decorate (st : state) (s : sid) (p : decorate_in) : verdict * state :=
   let keys := dec_keys (di_sig p) in
   let decs := s_decorators (get_scope st s) in
-  if existsb (fun k => is_some (alookup key_eqb k decs)) keys then (VErr err_dec_dup, st)
+  if negb (nodupb key_eqb keys) || existsb (fun k => is_some (alookup key_eqb k decs)) keys then (VErr err_dec_dup, st)
   else
     let d := length (st_decs st) in
     let st1 := set_decs st (st_decs st ++ [mkDNode (di_fn p) (di_sig p) s DReady (di_cb p)]) in
